@@ -123,7 +123,9 @@ func c16Ops() []timedOp {
 	for _, p := range []time.Duration{1 * u, 2 * u, 3 * u} {
 		p := p
 		ops = append(ops, timedOp{name: fmt.Sprintf("Interval(%s)", ms(int64(p))), d: p, creates: true, maxTime: 4*p + u,
-			build: func(src ro.Observable[int], l *c16log) func(rec *h.Rec) ro.Subscription { return subTyped(ro.Interval(p)) },
+			build: func(src ro.Observable[int], l *c16log) func(rec *h.Rec) ro.Subscription {
+				return subTyped(ro.Interval(p))
+			},
 			check: periodicCheck(p, p, i64, -1)})
 		for _, init := range []time.Duration{0, 1 * u, 2 * u} {
 			init := init
@@ -177,7 +179,9 @@ func c16Ops() []timedOp {
 			}
 		}
 		ops = append(ops, timedOp{name: fmt.Sprintf("Delay(%s)", ms(int64(p))), d: p, maxTime: 0,
-			build: func(src ro.Observable[int], l *c16log) func(rec *h.Rec) ro.Subscription { return subTyped(ro.Delay[int](p)(src)) },
+			build: func(src ro.Observable[int], l *c16log) func(rec *h.Rec) ro.Subscription {
+				return subTyped(ro.Delay[int](p)(src))
+			},
 			check: delayCheck})
 		ops = append(ops, timedOp{name: fmt.Sprintf("DelayEach(%s)", ms(int64(p))), d: p, maxTime: 0,
 			build: func(src ro.Observable[int], l *c16log) func(rec *h.Rec) ro.Subscription {
